@@ -146,7 +146,7 @@ def path_stack(p, res):
     inits = [n for n in rs.node.body if isinstance(n, ast.Assign) and src_of(n.targets[0]) == 'stack']
     if len(inits) == 1 and src_of(inits[0].value) in ('[]', 'list()'):
         res.ok('stack is a fresh list per resolve_snippets call')
-    elif not inits and 'stack' not in rs.locals:
+    elif not inits and 'stack' not in rs.locals and p.resolve_name(rs, 'stack') is not None and p.resolve_name(rs, 'stack').kind == 'const':
         res.bad(F('PATH-STACK', rs, rs.node, 'stack', 'the cycle-guard stack must be created per resolve_snippets call (it is shared between calls now)'))
     else:
         res.undecided('stack = ...', 'fresh list per resolve_snippets call')
